@@ -89,7 +89,7 @@ def c06_mask_values_int(v, spec):
     # finds nothing equal to x and returns mask=False: cells masked before
     # (in the input or by an earlier predicate of the same call) come back
     # unmasked holding int(x).
-    if v['kind'] != 'wrong-mask':
+    if v['kind'] not in ('wrong-mask', 'wrong-mask:mask_vals'):
         return False
     kw = v.get('kw', {})
     if 'values' not in kw or float(kw['values']) == int(kw['values']):
